@@ -41,6 +41,8 @@ def run_blocks(blocks):
     rc, impl, err = core.run_harness("pipes", text, timeout=600)
     if rc != 0:
         raise core.Broken("pipes-harness", "exit %d %s" % (rc, err[-300:]))
+    # the dup of the second registration gets whatever number is free: call it D
+    impl = [re.sub(r"\bfd\d+\b", "D", l) for l in impl]
     ib = split_blocks(impl)
     mtext = []
     for b, i in zip(blocks, ib):
@@ -124,7 +126,7 @@ class C13(PropCheck):
                 if probs:
                     failures.append({"kind": "violation", "key": "C13:" + core.digest([b[0], probs[0][:50]]),
                                      "what": "ops `%s`: %s" % ("; ".join(b), probs[0]), "payload": payload})
-                elif i != m and not any(op.startswith("reg2") for op in b):
+                elif i != m:
                     d = core.first_diff(m, i)
                     failures.append({"kind": "disagreement", "key": "C13:diff:" + b[0],
                                      "what": "ops `%s`: model `%s` vs implementation `%s`" % ("; ".join(b), d[1], d[2]), "payload": payload})
